@@ -45,6 +45,7 @@ var (
 	mapord = flag.String("maporder", "", "comma separated package dirs for the map-order rewrite")
 	syncsh = flag.String("syncshim", "", "comma separated package dirs or files for the sync shim")
 	mutant = flag.String("mutant", "", "mutant description file (json: [{file,old,new}])")
+	edits  = flag.String("edits", "", "instrumentation edits (same format as -mutant): seams a driver needs inside a function, e.g. a genesis-state hook")
 	inrepo = flag.String("inrepo", "", "comma separated inrepo sets to include (dir names under mc/inrepo); empty = all")
 )
 
@@ -93,6 +94,9 @@ func main() {
 	must(os.MkdirAll(*out, 0o755))
 	os.RemoveAll(filepath.Join(*out, "gen"))
 
+	if *edits != "" {
+		applyMutant(*edits)
+	}
 	if *mutant != "" {
 		applyMutant(*mutant)
 	}
